@@ -63,14 +63,20 @@ func (f *scionFront) set(w []wrapSpec) {
 }
 
 func otherHost(a netip.Addr, arg uint64) netip.Addr {
-	switch arg % 3 {
+	switch arg % 4 {
+	case 3: // an IPv6 host whose last four bytes are the IPv4 address (not the IPv4-mapped form, which is the same host)
+		var b [16]byte
+		copy(b[:], [][]byte{{0x20, 0x01, 0x0d, 0xb8}, {0x00, 0x64, 0xff, 0x9b}, {0xfe, 0x80}, {}, {0, 0, 0, 0, 0, 0, 0, 0, 0xff, 0xff}, {0, 0, 0, 0, 0, 0, 0, 0, 0, 0, 0xff, 0xfe}}[arg/4%6])
+		a4 := a.As4()
+		copy(b[12:], a4[:])
+		return netip.AddrFrom16(b)
 	case 0: // another IPv4 host (one bit)
 		b := a.As4()
-		b[3] ^= 1 << (arg / 3 % 8)
+		b[3] ^= 1 << (arg / 4 % 8)
 		return netip.AddrFrom4(b)
 	case 1:
 		b := a.As4()
-		b[int(arg/3)%3] ^= 0x10
+		b[int(arg/4)%3] ^= 0x10
 		return netip.AddrFrom4(b)
 	default: // an IPv6 host
 		var b [16]byte
@@ -177,7 +183,7 @@ var (
 	frontErr  error
 )
 
-var recSC = ev.New("c05/acceptance-scion", "rapid: a real SCIONClient (interleaved mode on/off, 0..2 clean warm-up exchanges) measures over a SCION path whose next hop is a harness front; the NTP server model answers with a script of 1..3 payloads as in c05/acceptance (genuine, arbitrary bytes, single-field header mutations, forged interleaved origins; each for its own clock offset >= 2 s apart), and the front wraps the i-th payload into a SCION reply that is genuine, a harmless variation (hop-by-hop extension, traffic class, flow id, unknown end-to-end option) or wrong in exactly one address part (source ISD-AS bit, source host, destination ISD-AS bit, destination host, source or destination address type changed to a service / unassigned type with the same bytes, addresses not exchanged) or an SCMP message. Oracle: success => the offset lies in the envelope of exactly one delivered datagram whose wrapper and header are acceptable by the statement (from the queried ISD-AS and host, addressed to the client, origin echoed, server mode, NTPv3/4, leap known, stratum 1..15, transmit not before receive); no acceptable datagram => error; a lone genuine reply => success. One evaluation = one scripted exchange. Non-trivial: >= 1 non-acceptable datagram delivered; distinct by script description")
+var recSC = ev.New("c05/acceptance-scion", "rapid: a real SCIONClient (interleaved mode on/off, 0..2 clean warm-up exchanges) measures over a SCION path whose next hop is a harness front; the NTP server model answers with a script of 1..3 payloads as in c05/acceptance (genuine, arbitrary bytes, single-field header mutations, forged interleaved origins; each for its own clock offset >= 2 s apart), and the front wraps the i-th payload into a SCION reply that is genuine, a harmless variation (hop-by-hop extension, traffic class, flow id, unknown end-to-end option) or wrong in exactly one address part (source ISD-AS bit, source host - another IPv4 address, an IPv6 address, or an IPv6 address that ends in the queried IPv4 address -, destination ISD-AS bit, destination host likewise, source or destination address type changed to a service / unassigned type with the same bytes, addresses not exchanged) or an SCMP message. Oracle: success => the offset lies in the envelope of exactly one delivered datagram whose wrapper and header are acceptable by the statement (from the queried ISD-AS and host, addressed to the client, origin echoed, server mode, NTPv3/4, leap known, stratum 1..15, transmit not before receive); no acceptable datagram => error; a lone genuine reply => success. One evaluation = one scripted exchange. Non-trivial: >= 1 non-acceptable datagram delivered; distinct by script description")
 
 func TestPropAcceptanceSCION(t *testing.T) {
 	frontOnce.Do(func() {
